@@ -359,6 +359,8 @@ type Req struct {
 	UA      string `json:"ua"`
 	Referer string `json:"referer"`
 	Custom  string `json:"custom"`
+	// Custom2: a second X-Custom-Id header line after the first (Header.Get, which the handler documents, reads the first only)
+	Custom2 string `json:"custom_second_line,omitempty"`
 	Proto   string `json:"proto"`
 	// Preset: the request arrives with an id already in its context (hlog.CtxWithID, e.g. set by
 	// an outer middleware): RequestIDHandler must keep it, log it and announce it
@@ -511,6 +513,9 @@ func runIsolation(c *ICase) (string, bool) {
 			r.Header.Set("User-Agent", rq.UA)
 			r.Header.Set("Referer", rq.Referer)
 			r.Header.Set("X-CUSTOM-id", rq.Custom)
+			if rq.Custom2 != "" {
+				r.Header.Add("x-custom-id", rq.Custom2)
+			}
 			r.Header.Set("X-Me", rq.ID)
 			if c.SharedCtx {
 				r = r.WithContext(sharedCtx)
@@ -705,6 +710,21 @@ func genICase(rt *rapid.T, maxReqs int) *ICase {
 			Remote: remotes[rapid.IntRange(0, len(remotes)-1).Draw(rt, "remoteform")], Host: hosts[rapid.IntRange(0, len(hosts)-1).Draw(rt, "hostform")],
 			UA: "agent-" + id, Referer: "http://ref/" + id, Custom: "custom-" + id, Proto: []string{"HTTP/1.0", "HTTP/1.1", "HTTP/2.0"}[i%3],
 			Preset: rapid.IntRange(0, 3).Draw(rt, "preset") == 0})
+		// header values as clients send them: lists with commas and parameters, quoted strings, several lines
+		// of one header, an empty first line
+		rq := &c.Reqs[len(c.Reqs)-1]
+		switch rapid.IntRange(0, 7).Draw(rt, "hdrform") {
+		case 0:
+			rq.Custom = "custom-" + id + ", b;q=0.5, c"
+			rq.UA = "Mozilla/5.0 (X11; Linux x86_64) AppleWebKit/537.36 (KHTML, like Gecko) agent-" + id
+		case 1:
+			rq.Custom2 = "second-" + id
+		case 2:
+			rq.Custom, rq.Custom2 = "", "second-"+id
+		case 3:
+			rq.Custom = `"custom-` + id + `,x" , ,`
+			rq.Referer = "http://ref/" + id + "?a=1,2&b=x;y"
+		}
 	}
 	return c
 }
